@@ -412,11 +412,18 @@ func (g *G) MacroProgram() *m.Program {
 	main.Body = append(main.Body, &m.N{K: "import", X: m.EStr("lib"), S: "mm"})
 	from := &m.N{K: "from", X: m.EStr("lib")}
 	fromNames := map[string]string{}
+	usedFn := map[int]bool{}
 	for _, lm := range libMacros {
 		if g.flip("fromimp") {
 			local := lm.name
 			if g.flip("rename") {
 				local = "f_" + lm.name
+				// sometimes the local name is that of a registered function:
+				// the imported macro takes its place
+				if g.intn("fncollide", 0, 3) == 0 && !usedFn[len(from.Pairs)%3] {
+					local = []string{"add", "nul", "truth"}[len(from.Pairs)%3]
+					usedFn[len(from.Pairs)%3] = true
+				}
 			}
 			from.Pairs = append(from.Pairs, [2]string{lm.name, local})
 			fromNames[lm.name] = local
